@@ -2,7 +2,9 @@
 import itertools
 import os
 import pinhist
-from . import funcases
+import gen
+import devices  # noqa: F401
+from . import funcases, servercases
 
 LEVEL = "proof"
 RULE = ("manager lifetimes run in forked children against a PIN-checking device with journalled state and "
@@ -100,9 +102,64 @@ def run(ctx):
     res["compared"] = cmp_n
     res["mismatches"] += mism
     res["corr_errors"] += errs
+    # the same rule on the reconnection path: a change is pending, start-up found the device already in
+    # the signer, the device is power-cycled, one request hits the link error, the next one reconnects
+    # into the bootloader, unlocks and attempts the change -> the manager must stop there too
+    r2 = servercases.run(ctx, reconnection_cases(ctx["rng"]), reconnection_oracle)
+    for k in ("evaluations", "compared", "distinct"):
+        res[k] += r2[k]
+    res["mismatches"] += r2["mismatches"]
+    res["violations"] += r2["violations"]
+    res["corr_errors"] += r2["corr_errors"]
     res["distribution"] = dist
     res["exhaustive"] = True
     return res
+
+
+class PowerCycled:
+    """signer-mode device that drops off the bus at the first APDU and comes back in the bootloader"""
+
+    def __init__(self, inner):
+        self.inner = inner
+        self.cycled = False
+
+    def __call__(self, apdu):
+        if not self.cycled:
+            self.cycled = True
+            self.inner.mode = 2
+            self.inner.unlocked = False
+            return ("W",)
+        return self.inner(apdu)
+
+
+def reconnection_cases(rng):
+    cases = []
+    for kind in ("ledger", "sgx"):
+        for fault in (None, 0x6A99, 0x69A0, ("T",), ("W",)):
+            for post in (3, 2):
+                d = gen.random_device(rng)
+                d.sgx = kind == "sgx"
+                d.pin = b"1234567a"
+                d.after_exit = [post, post]
+                if fault is not None:
+                    d.inject[(0xA5 if kind == "sgx" else 0x08, "*")] = fault
+                req = {"command": "getPubKey", "version": 5, "keyId": gen.PATHS[0]}
+                cases.append({"mode": "v5", "kind": kind, "lines": [gen.line(req)] * 3, "connects": [True, True],
+                              "pin": (b"1234567a", True), "rand": [b"Zz9Zz9Zz", b"Yy8Yy8Yy"], "fs": [True, True],
+                              "device": PowerCycled(d), "meta": {"kind": kind, "fault": repr(fault)}})
+    return cases
+
+
+def reconnection_oracle(case, obs):
+    newpin = 0xA5 if case["kind"] == "sgx" else 0x08
+    attempted = [i for i, e in enumerate(obs["trace"]) if e[0] == "A" and e[1][1] == newpin]
+    if not attempted:
+        return {"key": "C10:reconnect:no-attempt", "what": "scenario did not reach the PIN change (harness)"}
+    later = [e for e in obs["trace"][attempted[0] + 1:] if e[0] == "A"]
+    if not obs["replies"][-1]["stop"] or len(obs["replies"]) > 2:
+        return {"key": "C10:carried-on:reconnect", "what": "manager went on serving after a PIN change "
+                "attempt made while repairing the connection (%d further APDUs)" % len(later)}
+    return None
 
 
 def recoverable(file, dev, default):
